@@ -207,7 +207,7 @@ class GOb(Obligation):
             okm, info = self._monitor(mpaths[0]) if (self.post and self.raises is None and mpaths) else (True, "monitor skipped: every path has data-dependent decisions")
             if not okm:
                 return Verdict(ENGINE_BUG, "soundness-monitor", info, npaths)
-            return Verdict(PROVED, "canonical-form" if self.raises is None else "path-condition", "", npaths,
+            return Verdict(PROVED, getattr(self, "backend_label", None) or ("canonical-form" if self.raises is None else "path-condition"), "", npaths,
                            extra={"monitor": info} if info else None)
 
     # ---- concretisation
